@@ -4,7 +4,9 @@ import TextxVerif.ProcLocate
 /-! Driver for the processor models (C13, C33).
 ops:
   {"op":"objproc","kinds":[0|1|2 …],"reg":[cls…],"user":[cls…],"script":[[rule,id,R]…],
-   "resolves":[n…],"models":[V…]}
+   "resolves":[n…],"models":[V…],"regs"?:[[cls…]…]}
+     "regs" (optional, one list per model): the registrations of the metamodel each model was loaded with
+     (models of imported files can belong to another metamodel); without it every model uses "reg"
      V ::= null | {"p":tag} | {"o":id,"c":cls,"f":[[name,cont,many,cls,V]…]} | [V…]
      R ::= ["v",tag] | ["s"] | ["f",name]
    → {"events":[["r",n]|["i",m,id]|["p",m,rule,id]…],
@@ -133,11 +135,20 @@ def handle (j : Json) : Json :=
     match getNatList? j "kinds", getNatList? j "reg", getNatList? j "user", (getArr? j "script").bind parseScript,
           getNatList? j "resolves", (getArr? j "models").bind (fun a => a.toList.mapM parseVal) with
     | some ks, some reg, some user, some tbl, some resolves, some models =>
-      let M : MM := { kind := kindOf ks.toArray, hasProc := fun c => reg.contains c }
+      let mk (rg : List Nat) : MM := { kind := kindOf ks.toArray, hasProc := fun c => rg.contains c }
+      let regs : Option (List (List Nat)) := match j.getObjVal? "regs" with
+        | .ok (.arr a) => a.toList.mapM (fun x => (asArr? x).bind (fun xs => xs.toList.mapM asNat?))
+        | .ok _ => none
+        | .error _ => some (models.map (fun _ => reg))
+      match regs with
+      | none => badOp
+      | some regs =>
+      if regs.length ≠ models.length then badOp else
+      let mms : List (MM × Val) := (regs.zip models).map (fun p => (mk p.1, p.2))
       let S := scriptOf tbl
-      if models.all (fun v => wf M v v.cls && (match v with | .obj _ _ _ => true | _ => false)) then
-        let evs := finish M S (fun c => user.contains c) resolves models
-        let res := models.map (fun v => walk M S v v.cls)
+      if mms.all (fun p => wf p.1 p.2 p.2.cls && (match p.2 with | .obj _ _ _ => true | _ => false)) then
+        let evs := finishMM S (fun c => user.contains c) resolves mms
+        let res := mms.map (fun p => walk p.1 S p.2 p.2.cls)
         Json.mkObj [("events", Json.arr (evs.map evJson).toArray),
                     ("logs", Json.arr (res.map (fun r => Json.arr (r.log.map entryJson).toArray)).toArray),
                     ("finals", Json.arr (res.map (fun r => deep r.val)).toArray)]
